@@ -54,73 +54,7 @@ func c01Offsets(r *core.Report) {
 func c01SectionLength(r *core.Report) {
 	const rule = "C01.R2"
 	p := r.Prog
-	// ReadSectionLength: returns (l, <counter field of the reader given to ReadUvarint>)
-	if f := r.Anchor(rule, "carreader.ReadSectionLength"); f != nil {
-		info := f.Pkg.TypesInfo
-		g := p.Graph(f)
-		var lenObj, counterVar types.Object
-		ast.Inspect(f.Body, func(n ast.Node) bool {
-			as, ok := n.(*ast.AssignStmt)
-			if !ok || len(as.Rhs) != 1 || len(as.Lhs) != 2 {
-				return true
-			}
-			c, ok := core.Unparen(as.Rhs[0]).(*ast.CallExpr)
-			if !ok || core.CalleeName(info, c) != "encoding/binary.ReadUvarint" || len(c.Args) != 1 {
-				return true
-			}
-			lenObj = core.ObjOf(info, as.Lhs[0])
-			if u, ok := core.Unparen(c.Args[0]).(*ast.UnaryExpr); ok && u.Op == token.AND {
-				counterVar = core.ObjOf(info, u.X)
-			} else {
-				counterVar = core.ObjOf(info, c.Args[0])
-			}
-			return true
-		})
-		if lenObj == nil || counterVar == nil {
-			r.Violation(rule, f.Key+"#varint-decode", posP(r, f.Pos()), "the section length is not decoded with binary.ReadUvarint through a counting reader")
-		} else {
-			okAll, n := true, 0
-			for _, rn := range g.Returns() {
-				if definitelyErrorReturn(g, f, rn) {
-					continue
-				}
-				res := returnResults(rn)
-				if len(res) != 3 {
-					continue
-				}
-				n++
-				// first result the decoded length, second a field of the counting reader
-				sel, isSel := core.Unparen(res[1]).(*ast.SelectorExpr)
-				if core.ObjOf(info, res[0]) != lenObj || !isSel || core.ObjOf(info, sel.X) != counterVar {
-					okAll = false
-				}
-			}
-			r.Check(okAll && n > 0, rule, f.Key+"#returns(length,bytes-consumed)", posP(r, f.Pos()), "returns the decoded length and the byte count of the reader the varint was decoded from",
-				"the second result of ReadSectionLength is not the byte counter of the reader the varint was decoded from: a recomputed width can disagree with the bytes really consumed (e.g. at 128 or 16384), shifting every later offset")
-			// the counting reader's ReadByte increments exactly on success
-			if tn := core.NamedTypeName(counterVar.Type()); tn != "" {
-				rb := p.Fn(strings.Replace(tn, ".", ".(*", 1) + ").ReadByte")
-				if rb == nil {
-					r.Undecided(rule, "anchor:"+tn+".ReadByte", "", "ReadByte of the counting reader not found")
-				} else {
-					rg := p.Graph(rb)
-					ri := rb.Pkg.TypesInfo
-					inc := false
-					for _, n := range stmtNodes(rg) {
-						if s, ok := n.Ast.(*ast.IncDecStmt); ok && s.Tok == token.INC {
-							// dominated by err == nil
-							for _, fc := range rg.FactsAt(n) {
-								if _, eq, ok := core.NilCompare(ri, fc.Expr); ok && eq == fc.Truth {
-									inc = true
-								}
-							}
-						}
-					}
-					r.Check(inc, rule, rb.Key+"#counts-successful-bytes", posP(r, rb.Pos()), "the counter is incremented once per successfully read byte", "the counting reader does not increment its counter exactly on successful reads")
-				}
-			}
-		}
-	}
+	checkReadSectionLength(r, rule)
 	// ReadNodeInfoWith(out)Data: second result = sectionLen + ll of the same ReadSectionLength call
 	for _, k := range []string{"carreader.ReadNodeInfoWithData", "carreader.ReadNodeInfoWithoutData"} {
 		f := r.Anchor(rule, k)
@@ -597,5 +531,78 @@ func c01WriterLifecycle(r *core.Report) {
 		}
 		r.Check(nIns > 0, rule, fmt.Sprintf("%s#%s-receives-inserts", f.Key, w.obj.Name()), posP(r, w.obj.Pos()), fmt.Sprintf("%d insert call(s) feed this writer", nIns), "no insert call feeds the writer created by "+w.ctor)
 		r.Check(nSeal > 0, rule, fmt.Sprintf("%s#%s-is-sealed", f.Key, w.obj.Name()), posP(r, w.obj.Pos()), "the writer is sealed / written out", "the writer created by "+w.ctor+" is never sealed or written out")
+	}
+}
+
+// checkReadSectionLength: carreader.ReadSectionLength returns the decoded length together with the number of bytes the
+// varint really occupied (the counter of the reader it was decoded from), not a recomputed width.
+func checkReadSectionLength(r *core.Report, rule string) {
+	p := r.Prog
+	// ReadSectionLength: returns (l, <counter field of the reader given to ReadUvarint>)
+	if f := r.Anchor(rule, "carreader.ReadSectionLength"); f != nil {
+		info := f.Pkg.TypesInfo
+		g := p.Graph(f)
+		var lenObj, counterVar types.Object
+		ast.Inspect(f.Body, func(n ast.Node) bool {
+			as, ok := n.(*ast.AssignStmt)
+			if !ok || len(as.Rhs) != 1 || len(as.Lhs) != 2 {
+				return true
+			}
+			c, ok := core.Unparen(as.Rhs[0]).(*ast.CallExpr)
+			if !ok || core.CalleeName(info, c) != "encoding/binary.ReadUvarint" || len(c.Args) != 1 {
+				return true
+			}
+			lenObj = core.ObjOf(info, as.Lhs[0])
+			if u, ok := core.Unparen(c.Args[0]).(*ast.UnaryExpr); ok && u.Op == token.AND {
+				counterVar = core.ObjOf(info, u.X)
+			} else {
+				counterVar = core.ObjOf(info, c.Args[0])
+			}
+			return true
+		})
+		if lenObj == nil || counterVar == nil {
+			r.Violation(rule, f.Key+"#varint-decode", posP(r, f.Pos()), "the section length is not decoded with binary.ReadUvarint through a counting reader")
+		} else {
+			okAll, n := true, 0
+			for _, rn := range g.Returns() {
+				if definitelyErrorReturn(g, f, rn) {
+					continue
+				}
+				res := returnResults(rn)
+				if len(res) != 3 {
+					continue
+				}
+				n++
+				// first result the decoded length, second a field of the counting reader
+				sel, isSel := core.Unparen(res[1]).(*ast.SelectorExpr)
+				if core.ObjOf(info, res[0]) != lenObj || !isSel || core.ObjOf(info, sel.X) != counterVar {
+					okAll = false
+				}
+			}
+			r.Check(okAll && n > 0, rule, f.Key+"#returns(length,bytes-consumed)", posP(r, f.Pos()), "returns the decoded length and the byte count of the reader the varint was decoded from",
+				"the second result of ReadSectionLength is not the byte counter of the reader the varint was decoded from: a recomputed width can disagree with the bytes really consumed (e.g. at 128 or 16384), shifting every later offset")
+			// the counting reader's ReadByte increments exactly on success
+			if tn := core.NamedTypeName(counterVar.Type()); tn != "" {
+				rb := p.Fn(strings.Replace(tn, ".", ".(*", 1) + ").ReadByte")
+				if rb == nil {
+					r.Undecided(rule, "anchor:"+tn+".ReadByte", "", "ReadByte of the counting reader not found")
+				} else {
+					rg := p.Graph(rb)
+					ri := rb.Pkg.TypesInfo
+					inc := false
+					for _, n := range stmtNodes(rg) {
+						if s, ok := n.Ast.(*ast.IncDecStmt); ok && s.Tok == token.INC {
+							// dominated by err == nil
+							for _, fc := range rg.FactsAt(n) {
+								if _, eq, ok := core.NilCompare(ri, fc.Expr); ok && eq == fc.Truth {
+									inc = true
+								}
+							}
+						}
+					}
+					r.Check(inc, rule, rb.Key+"#counts-successful-bytes", posP(r, rb.Pos()), "the counter is incremented once per successfully read byte", "the counting reader does not increment its counter exactly on successful reads")
+				}
+			}
+		}
 	}
 }
